@@ -277,7 +277,9 @@ def probe_cases(ctx, ws, cwd, asm0, which, part=0, nparts=1):
             rp = ws.write("probe_rule_s.yaml", real.dump_rule({"pattern": pat}))
             for am in (False, True):
                 stream_input_probe(ctx, ws, cwd, rp, RELOC, am)
-        for pat in (["push", "mov"], [{"push": ["%rbp"]}], ["ret"], ["mov", "ret"]):
+        # ... and rules every element of which is optional (they also match the empty sequence: the command and the API still agree)
+        for pat in (["push", "mov"], [{"push": ["%rbp"]}], ["ret"], ["mov", "ret"], [{"zzz": {"times": {"min": 0, "max": 2}}}], [{"nop": {"times": {"min": 0, "max": 1}}}],
+                    [{"$or": ["zzz", "yyy"], "times": {"min": 0, "max": 1}}]):
             rp = ws.write("probe_rule.yaml", real.dump_rule({"pattern": pat}))
             for am in (False, True):
                 for oa in (False, True):
